@@ -8,6 +8,15 @@ TRUSTED_BASE = [
 ]
 
 PROPS = {
+    "C17": {
+        "verus": ["node_label"],
+        "kani": ["c17"],
+        "search": True,
+        "scope": "first sentence: every NodeLabel operation (bit access, prefix test, longest common prefix, prefix extraction, child direction, ordering) "
+                 "equals its bit-string meaning for all labels of 0..256 bits; second sentence (set operations): bounded Kani stand-in, see bounded",
+        "trusted": ["TC::empty_label() is deterministic (a pure function without inputs); its two implementations are verified to return length 0"],
+        "assumed": [],
+    },
     "C08": {
         "verus": ["markers"],
         "search": True,
